@@ -625,11 +625,11 @@ def stmt_units(tier):
     m = importlib.import_module("vpkg.harness.stmt")
     out = []
 
-    def mk(kinds, tn, tp, td, timeout=300):
+    def mk(kinds, tn, tp, td, timeout=300, integ="generic", rep=None):
         tables = {"name": tn, "prefix": tp, "datatype": td}
         m.P = {"tables": tables}
-        tag = "stmt:" + "|".join(kinds) + f":n{tn['n']}.{tn['m']}:p{tp['n']}.{tp['m']}.{tp.get('e', 0)}:d{td['n']}.{td['m']}"
-        out.append(U(tag, "stmt", "stmt", dict(kinds=kinds, tables=tables, nchoices=m.count_choices(kinds)), timeout=timeout, no_sample=True))
+        tag = "stmt:" + ("" if integ == "generic" else "rdflib:") + "|".join(kinds) + f":n{tn['n']}.{tn['m']}:p{tp['n']}.{tp['m']}.{tp.get('e', 0)}:d{td['n']}.{td['m']}" + ("" if not rep else ":rep" + "".join(map(str, rep)))
+        out.append(U(tag, "stmt", "stmt", dict(kinds=kinds, tables=tables, nchoices=m.count_choices(kinds), integ=integ, rep=rep), timeout=timeout, no_sample=True))
 
     names = [dict(n=2, m=0), dict(n=2, m=1), dict(n=2, m=2), dict(n=3, m=3)]
     prefs = [dict(n=0, m=0, e=0), dict(n=2, m=1, e=0), dict(n=2, m=2, e=1), dict(n=2, m=2, e=0), dict(n=3, m=3, e=2)]
@@ -652,6 +652,18 @@ def stmt_units(tier):
     mk(["bnode", "bnode", "lit", "iri"], dict(n=2, m=2), dict(n=2, m=2, e=0), d0)
     mk(["bnode", "bnode", "lit", "default"], dict(n=2, m=2), dict(n=2, m=2, e=0), d0)
     mk(["qt:iri,bnode,tlit", "bnode", "lit"], dict(n=2, m=2), dict(n=2, m=1, e=0), dict(n=2, m=2), 900)
+    # rdflib term encoder from symbolic table states
+    mk(["iri", "iri", "lit"], dict(n=2, m=1), dict(n=2, m=1, e=0), d0, 900, integ="rdflib")
+    mk(["iri", "bnode", "lit"], dict(n=2, m=2), dict(n=2, m=2, e=1), d0, 600, integ="rdflib")
+    mk(["bnode", "iri", "tlit"], dict(n=2, m=2), dict(n=0, m=0, e=0), dict(n=2, m=2), 600, integ="rdflib")
+    mk(["bnode", "iri", "lit", "iri"], dict(n=2, m=1), dict(n=2, m=2, e=0), d0, 900, integ="rdflib")
+    # repeated-term classes per slot: 1 = equal to the previous statement's term (must be elided), 2 = different
+    mk(["iri", "bnode", "lit"], dict(n=2, m=2), dict(n=2, m=2, e=0), d0, 600, rep=[1, 2, 0])
+    if tier != "quick":
+        mk(["iri", "iri", "tlit"], dict(n=2, m=2), dict(n=2, m=1, e=0), dict(n=2, m=2), 1800, rep=[2, 1, 1])
+        mk(["bnode", "iri", "lit", "iri"], dict(n=2, m=2), dict(n=2, m=2, e=1), d0, 1800, rep=[1, 0, 2, 1])
+    mk(["bnode", "iri", "lit", "iri"], dict(n=2, m=1), dict(n=2, m=1, e=0), d0, 900, rep=[1, 2, 2, 1])
+    mk(["iri", "iri", "lit"], dict(n=2, m=1), dict(n=2, m=1, e=0), d0, 900, integ="rdflib", rep=[1, 2, 1])
     # two typed literals in one statement (deferred resolution on the datatype table)
     mk(["bnode", "bnode", "tlit", "tlit"], dict(n=2, m=0), dict(n=0, m=0, e=0), dict(n=2, m=2), 900)
     mk(["bnode", "bnode", "tlit", "tlit"], dict(n=2, m=0), dict(n=0, m=0, e=0), dict(n=2, m=1), 900)
